@@ -247,6 +247,18 @@ theorem foldl_fwdEntry_allQ_g {P : Nat → Reasm.Q → Prop} (hP : GPres P) {b :
   | nil => exact h
   | cons e es ih => exact ih (fwdEntry_allQ_g hP h e)
 
+theorem ensureStreams_allQ_g {P : Nat → Reasm.Q → Prop} (hP : GPres P) {b : Nat} (ids : List (BitVec 16)) {s : St}
+    (h : AllQ (P b) s) : AllQ (P b) (ensureStreams s ids).1 := by
+  induction ids generalizing s with
+  | nil => exact h
+  | cons id ids ih =>
+    simp only [ensureStreams]
+    split
+    · exact ih h
+    · split
+      · exact ih (createStream_allQ_g hP h id true)
+      · exact createStream_allQ_g hP h id true
+
 theorem handleFwd_allQ_g {P : Nat → Reasm.Q → Prop} (hP : GPres P) {b : Nat} {s : St} (h : AllQ (P b) s) (c : TSN)
     (es : List (BitVec 16 × BitVec 16)) : AllQ (P b) (handleFwd s c es) := by
   unfold handleFwd
@@ -256,13 +268,18 @@ theorem handleFwd_allQ_g {P : Nat → Reasm.Q → Prop} (hP : GPres P) {b : Nat}
     · exact h
     · split
       · exact h
-      · apply ackStep_allQ
-        have h1 := foldl_fwdEntry_allQ_g hP es (s := { s with pq := RecvQ.advance s.pq c }) h
-        refine ⟨?_, h1.2⟩
-        intro x hx
-        simp only [List.mem_map] at hx
-        obtain ⟨y, hy, rfl⟩ := hx
-        exact hP.step b y.q (.fwdU c) (h1.1 y hy)
+      · have he := ensureStreams_allQ_g hP (es.map (·.1)) h
+        generalize ensureStreams s (es.map (·.1)) = e at he ⊢
+        dsimp only
+        split
+        · exact he
+        · apply ackStep_allQ
+          have h1 := foldl_fwdEntry_allQ_g hP es (s := { e.1 with pq := RecvQ.advance e.1.pq c }) he
+          refine ⟨?_, h1.2⟩
+          intro x hx
+          simp only [List.mem_map] at hx
+          obtain ⟨y, hy, rfl⟩ := hx
+          exact hP.step b y.q (.fwdU c) (h1.1 y hy)
 
 theorem ifwdEntry_allQ_g {P : Nat → Reasm.Q → Prop} (hP : GPres P) {b : Nat} {s : St} (h : AllQ (P b) s)
     (e : BitVec 16 × Bool × BitVec 32) : AllQ (P b) (ifwdEntry s e) := by
@@ -299,7 +316,12 @@ theorem handleIFwd_allQ_g {P : Nat → Reasm.Q → Prop} (hP : GPres P) {b : Nat
   · exact h
   · split
     · exact h
-    · exact ackStep_allQ (foldl_ifwdEntry_allQ_g hP es (s := { s with pq := RecvQ.advance s.pq c }) h) _
+    · have he := ensureStreams_allQ_g hP (es.map (·.1)) h
+      generalize ensureStreams s (es.map (·.1)) = e at he ⊢
+      dsimp only
+      split
+      · exact he
+      · exact ackStep_allQ (foldl_ifwdEntry_allQ_g hP es (s := { e.1 with pq := RecvQ.advance e.1.pq c }) he) _
 
 /-! ### packets, application, writer, clock -/
 
